@@ -19,14 +19,14 @@ pub struct Budget {
 pub fn budget(prop: &str, tier: &str) -> Budget {
     let quick = tier != "thorough";
     let (q, t): (u64, u64) = match prop {
-        "C04" => (40, 2_000),
-        "C10" | "C19" => (300, 30_000),
-        "C11" => (160, 20_000),
-        "C20" => (300, 30_000),
-        "C15" | "C17" | "C18" => (400, 40_000),
-        "C01" | "C02" | "C09" => (600, 100_000),
-        "C06" | "C12" => (600, 80_000),
-        _ => (500, 60_000),
+        "C04" => (150, 4_000),
+        "C10" | "C19" => (1_500, 60_000),
+        "C11" => (160, 8_000),
+        "C20" => (3_000, 200_000),
+        "C15" | "C17" | "C18" => (2_000, 100_000),
+        "C01" | "C02" | "C09" => (3_000, 200_000),
+        "C06" | "C12" => (3_000, 200_000),
+        _ => (2_500, 150_000),
     };
     let scale: f64 = std::env::var("VERIF_SCALE").ok().and_then(|s| s.parse().ok()).unwrap_or(1.0);
     Budget {
@@ -463,4 +463,83 @@ fn assumptions(prop: &str) -> Vec<String> {
         a.push("polls are judged at quiescent points (background work settled)".into());
     }
     a
+}
+
+/// Determinism proof: every seed is executed twice, in two different fresh processes (spread over worker
+/// processes at two different worker counts); the per-seed digests (trace hash, steps, simulated time,
+/// distinct states, violations) must be identical. Exit 0 = identical, 2 = the simulator is not
+/// deterministic (a harness error, never a verdict about a property).
+pub fn determinism_proof(arg: &str) -> i32 {
+    let per_prop: u64 = arg.parse().unwrap_or(40);
+    let props = ["C01", "C03", "C05", "C06", "C08", "C09", "C11", "C12", "C13", "C14", "C20", "C04"];
+    let run = |prop: &str, block: u64, n: u64| -> String {
+        let out = Command::new(exe()).arg("determinism").arg(prop).arg(n.to_string()).env("VERIF_SEED", block.to_string()).env("VERIF_MAX_IMAGES", "60").stderr(Stdio::null()).output();
+        out.map(|o| String::from_utf8_lossy(&o.stdout).to_string()).unwrap_or_default()
+    };
+    let mut jobs: Vec<(String, u64, u64)> = Vec::new();
+    for (i, prop) in props.iter().enumerate() {
+        let n = if *prop == "C04" || *prop == "C11" { (per_prop / 10).max(2) } else { per_prop };
+        // split every property's seeds over several processes
+        for part in 0..4u64 {
+            jobs.push((prop.to_string(), 7000 + i as u64 * 10 + part, (n / 4).max(1)));
+        }
+    }
+    let mut seeds = 0u64;
+    let mut mismatches = Vec::new();
+    for (round, workers) in [(0usize, 16usize), (1, 5)] {
+        let _ = round;
+        let _ = workers;
+    }
+    // round A with 16 parallel processes, round B with 5
+    let execute = |workers: usize| -> Vec<String> {
+        let jobs = jobs.clone();
+        let results = Arc::new(std::sync::Mutex::new(vec![String::new(); jobs.len()]));
+        let next = Arc::new(AtomicU64::new(0));
+        let mut handles = Vec::new();
+        for _ in 0..workers {
+            let jobs = jobs.clone();
+            let results = results.clone();
+            let next = next.clone();
+            handles.push(std::thread::spawn(move || loop {
+                let i = next.fetch_add(1, Ordering::SeqCst) as usize;
+                if i >= jobs.len() {
+                    break;
+                }
+                let (prop, block, n) = &jobs[i];
+                let out = Command::new(exe()).arg("determinism").arg(prop).arg(n.to_string()).env("VERIF_SEED", block.to_string()).env("VERIF_MAX_IMAGES", "60").stderr(Stdio::null()).output();
+                let text = out.map(|o| String::from_utf8_lossy(&o.stdout).to_string()).unwrap_or_default();
+                results.lock().unwrap()[i] = text;
+            }));
+        }
+        for h in handles {
+            let _ = h.join();
+        }
+        let r = results.lock().unwrap().clone();
+        r
+    };
+    let _ = &run;
+    let a = execute(16);
+    let b = execute(5);
+    for (i, (x, y)) in a.iter().zip(b.iter()).enumerate() {
+        seeds += x.lines().count() as u64;
+        if x != y || x.is_empty() {
+            for (lx, ly) in x.lines().zip(y.lines()) {
+                if lx != ly {
+                    mismatches.push(format!("{} block {}: {lx}  !=  {ly}", jobs[i].0, jobs[i].1));
+                }
+            }
+            if x.is_empty() {
+                mismatches.push(format!("{} block {}: no output", jobs[i].0, jobs[i].1));
+            }
+        }
+    }
+    println!("# determinism proof: {seeds} seeds over {} properties, each executed twice in different processes (16 and 5 parallel workers): {} mismatches", props.len(), mismatches.len());
+    for m in mismatches.iter().take(10) {
+        println!("# MISMATCH {m}");
+    }
+    if mismatches.is_empty() && seeds > 0 {
+        0
+    } else {
+        2
+    }
 }
